@@ -137,6 +137,12 @@ class State:
         a = self.comp(name, sort)
         t = select_store(a, ref, self.old_ids)
         self.base_wf(a, ref)
+        if a.sort().range() == Val and not z3.is_app_of(t, z3.Z3_OP_DT_CONSTRUCTOR):
+            # well-formed heap at all times: a stored reference was allocated before it was stored
+            k = ("rd", t.get_id())
+            if k not in self._wf_seen:
+                self._wf_seen.add(k)
+                self.pc.append(z3.Implies(Val.is_R(t), z3.And(Val.r(t) >= 0, Val.r(t) < self.alloc_ptr())))
         return t
 
     def base_wf(self, a, ref):
@@ -178,7 +184,8 @@ class State:
     def alloc(self, cls):
         r = z3.simplify(self.alloc_base + self.alloc_off)
         self.alloc_off += 1
-        self.H["cls"] = z3.Store(self.comp("cls"), r, z3.IntVal(clsid(cls)))
+        # class tags never change: one global array; allocating fixes the (so far unconstrained) tag of the new reference
+        self.pc.append(z3.Select(self.comp("cls"), r) == clsid(cls))
         return r
 
     def bump_alloc(self):
